@@ -2807,8 +2807,8 @@ func (t *Topic) replyGetData(sess *Session, asUid types.Uid, asChan bool, req *M
 				for i := range messages {
 					mm := &messages[i]
 					from := ""
-					if !asChan {
-						// Don't show sender for channel readers
+					if !asChan && !userData.isChan {
+						// Don't show sender for channel readers, whichever name they use for the topic.
 						from = types.ParseUid(mm.From).UserId()
 					}
 					outgoingMessages[i] = &ServerComMessage{
